@@ -149,7 +149,8 @@ func decodeMapBodyInto(blob []byte, v reflect.Value, fields []mapBodyField) erro
 	}
 	for _, f := range fields {
 		raw, ok := raws[f.Name]
-		if !ok {
+		if !ok || len(raw) == 0 {
+			// absent, or stored as msgpack nil (a nil slice, map or pointer): the field keeps its zero value
 			continue
 		}
 		fv := v.Field(f.Index)
